@@ -9,6 +9,7 @@ From Verif Require Import Lib.Params Lib.Words Lib.NumberTheory Model.FfgLimbs
 From Verif Require Proofs.GapField.
 From Verif Require Gen.FfgRoutines.
 From Verif Require Lib.Words Lib.GoGlue Gen.FfGlue Gen.FfgGlue Proofs.FfGlueEq Proofs.FfgGlueEq Model.FfLimbs Model.FfgLimbs Model.FfConv Model.FfgConv.
+From Verif Require Gen.FfgMem Proofs.FfgMemEq Gen.FfgRoutines.
 Local Open Scope Z_scope.
 
 Theorem C09_add : forall x y, canon x -> canon y ->
@@ -122,6 +123,36 @@ Proof.
         (conj FfgGlueEq.gen_Div_eq (conj FfgGlueEq.gen_Halve_eq FfgGlueEq.gen_BatchInvert_eq))))).
 Qed.
 
+(* ---- "also when the destination is the same object as one or both operands", PORTABLE code:
+   tools/limbgen emits every pointer-taking limb routine a second time in a MEMORY semantics
+   (FfgMem: a store obj -> el, loads and stores in Go statement order, pointer parameters
+   are object ids about which nothing is assumed); for ALL object ids (equal or not) and all stores
+   the destination ends up holding the value-level result computed from the INITIAL operands and
+   every other object is unchanged ---- *)
+Theorem C09_portable_aliasing : forall z x y m,
+  FfgMemEq.ok3 FfgMem.addGeneric_mem FfgRoutines.addGeneric z x y m /\
+  FfgMemEq.ok3 FfgMem.subGeneric_mem FfgRoutines.subGeneric z x y m /\
+  FfgMemEq.ok3 FfgMem.mulGeneric_mem FfgRoutines.mulGeneric z x y m /\
+  FfgMemEq.ok3 FfgMem.Element_Add_mem FfgRoutines.Element_Add z x y m /\
+  FfgMemEq.ok3 FfgMem.Element_Sub_mem FfgRoutines.Element_Sub z x y m /\
+  FfgMemEq.ok3 FfgMem.Element_Mul_mem FfgRoutines.Element_Mul z x y m /\
+  FfgMemEq.ok2 FfgMem.Element_Square_mem FfgRoutines.Element_Square z x m /\
+  FfgMemEq.ok2 FfgMem.doubleGeneric_mem FfgRoutines.doubleGeneric z x m /\
+  FfgMemEq.ok2 FfgMem.negGeneric_mem FfgRoutines.negGeneric z x m /\
+  FfgMemEq.ok2 FfgMem.Element_Double_mem FfgRoutines.Element_Double z x m /\
+  FfgMemEq.ok2 FfgMem.Element_Neg_mem FfgRoutines.Element_Neg z x m /\
+  FfgMemEq.ok2 FfgMem.Element_Set_mem FfgRoutines.Element_Set z x m /\
+  FfgMemEq.ok1 FfgMem.fromMontGeneric_mem FfgRoutines.fromMontGeneric z m /\
+  FfgMemEq.ok1 FfgMem.reduceGeneric_mem FfgRoutines.reduceGeneric z m.
+Proof.
+  intros z x y m.
+  exact (conj (FfgMemEq.addGeneric_mem_ok z x y m) (conj (FfgMemEq.subGeneric_mem_ok z x y m) (conj (FfgMemEq.mulGeneric_mem_ok z x y m)
+        (conj (FfgMemEq.Element_Add_mem_ok z x y m) (conj (FfgMemEq.Element_Sub_mem_ok z x y m) (conj (FfgMemEq.Element_Mul_mem_ok z x y m)
+        (conj (FfgMemEq.Element_Square_mem_ok z x m) (conj (FfgMemEq.doubleGeneric_mem_ok z x m) (conj (FfgMemEq.negGeneric_mem_ok z x m)
+        (conj (FfgMemEq.Element_Double_mem_ok z x m) (conj (FfgMemEq.Element_Neg_mem_ok z x m) (conj (FfgMemEq.Element_Set_mem_ok z x m)
+        (conj (FfgMemEq.fromMontGeneric_mem_ok z m) (FfgMemEq.reduceGeneric_mem_ok z m)))))))))))))).
+Qed.
+
 Print Assumptions C09_model_is_the_source.
 Print Assumptions C09_mul.
 Print Assumptions C09_add.
@@ -133,3 +164,4 @@ Print Assumptions C09_halve.
 Print Assumptions C09_div_by_zero.
 Print Assumptions C09_modinv_is_ModInverse.
 Print Assumptions C09_glue_is_the_source.
+Print Assumptions C09_portable_aliasing.
